@@ -4,6 +4,8 @@ import (
 	"fmt"
 	"math"
 	"math/big"
+
+	"github.com/platinummonkey/go-concurrency-limits/limit"
 )
 
 func init() {
@@ -28,7 +30,7 @@ func init() {
 		Assumptions: []string{"Vegas probe multiplier >= 4 in this check; bounds are deliberately generous (DESIGN.md §3 C06)"},
 	})
 	Register(&Prop{
-		ID: "C07", Bubble: false, Run: runC07, QuickRuns: 2500,
+		ID: "C07", Bubble: true, Run: runC07, QuickRuns: 2500,
 		Rule: "one run = AIMD / Vegas / Gradient / Gradient2 in a state reached by a seeded prefix history (incl. drops and zero RTTs); (a) every non-drop sample with in-flight below half the estimate (below the estimate for AIMD) must not raise it; (b) a healthy run (no drops, in-flight >= 2 x ceiling, constant rtt not above the baseline) must raise the estimate again and bring it within one of the ceiling within a configuration-derived number of samples (AIMD +increment per sample; Gradient >= queue allowance per non-probe sample); " +
 			"non-trivial = at least one app-limited sample was checked and the healthy run started below the ceiling; distinct = distinct choice tapes",
 		Real:        []string{"limit.AIMDLimit", "limit.VegasLimit", "limit.GradientLimit", "limit.Gradient2Limit", "measurements.*"},
@@ -271,6 +273,10 @@ func rttClass(rtt int64) string {
 
 func runC07(r *Run) {
 	t := r.T
+	if t.Chance(8, "concurrent-aimd") {
+		runC07ConcurrentAIMD(r)
+		return
+	}
 	cfg := drawAlgoCfg(t, []string{"aimd", "vegas", "gradient", "gradient2"}, nil)
 	if cfg.Name == "vegas" && cfg.ProbeMult < 4 {
 		cfg.ProbeMult = 4
@@ -456,5 +462,79 @@ func runC07(r *Run) {
 	}
 	if probes > 0 {
 		r.Probe("gradient_probe_during_healthy_run")
+	}
+}
+
+// runC07ConcurrentAIMD: the demand gate must also hold when samples are reported from several
+// goroutines: whatever the interleaving, the final estimate must be one that some sequential
+// order of the (atomic) samples produces. AIMD's rule is exact, so all orders are enumerated.
+func runC07ConcurrentAIMD(r *Run) {
+	t := r.T
+	initial := 2 + t.Intn(12, "initial")
+	inc := 1 + t.Intn(3, "inc")
+	lim := limit.NewAIMDLimit("aimd", initial, 0.5, inc, nil)
+	nTasks := 2 + t.Intn(2, "tasks")
+	type smp struct {
+		f    int
+		drop bool
+	}
+	scripts := make([][]smp, nTasks)
+	total := 0
+	for i := range scripts {
+		n := 1 + t.Intn(2, "samples")
+		for k := 0; k < n; k++ {
+			f := []int{initial, initial - 1, initial + inc, initial / 2, initial + 2*inc}[t.Intn(5, "inflight")]
+			scripts[i] = append(scripts[i], smp{f: f, drop: t.Chance(10, "drop")})
+			total++
+		}
+	}
+	r.Mixf("C07 concurrent AIMD initial=%d inc=%d scripts=%v", initial, inc, scripts)
+	s := r.NewSched()
+	for i := range scripts {
+		sc := scripts[i]
+		s.Go("sampler", func(tk *Task) {
+			for _, x := range sc {
+				tk.Begin("OnSample", x)
+				lim.OnSample(0, 1000, x.f, x.drop)
+				tk.End(nil)
+			}
+		})
+	}
+	s.Run()
+	if s.Failed() != nil || s.Truncated {
+		return
+	}
+	final := lim.EstimatedLimit()
+	// all interleavings of the scripts (per-task order kept)
+	reach := map[int]bool{}
+	pos := make([]int, nTasks)
+	var rec func(cur int, left int)
+	rec = func(cur int, left int) {
+		if left == 0 {
+			reach[cur] = true
+			return
+		}
+		for i := range scripts {
+			if pos[i] < len(scripts[i]) {
+				x := scripts[i][pos[i]]
+				nx := cur
+				if x.drop {
+					nx = maxInt(1, minInt(cur-1, cur/2))
+				} else if x.f >= cur {
+					nx = cur + inc
+				}
+				pos[i]++
+				rec(nx, left-1)
+				pos[i]--
+			}
+		}
+	}
+	rec(initial, total)
+	r.Probe("concurrent_aimd_checked")
+	if len(reach) > 1 {
+		r.Nontrivial = true
+	}
+	if !reach[final] {
+		r.Fail("concurrent-samples-not-serializable", "aimd", "samples %v reported concurrently left the estimate at %d (initial %d, increment %d); no sequential order of these samples gives that value (possible: %v) - some sample raised the limit although its in-flight was below the estimate in force when it was applied", scripts, final, initial, inc, reach)
 	}
 }
